@@ -3,7 +3,7 @@ import core
 from core import hx
 
 ID = "C10"
-READY = False
+READY = True
 ORACLE = "c10"
 HARNESS_BIN = "c10"
 NCASES = {"quick": 14000, "thorough": 300000}
@@ -11,16 +11,20 @@ CASE_TIMEOUT = {"quick": 30, "thorough": 120}
 MODES = ["Zero", "Away", "Up", "Down", "HalfEven", "HalfAway"]
 BASES = [2, 2, 3, 8, 10, 10, 10, 16, 36]
 
-LEVEL_TEXT = ("Coq theorems for all inputs: the as-is models of FBig::{trunc,floor,ceil,round,fract,split_at_point,to_int,with_precision}, "
-              "Repr::to_int, split_at_point_internal/smaller_than_one (digits_ub an arbitrary over-estimate) and of the rational "
-              "ceil/floor/trunc/round/fract/split_at_point return the neighbour of the exact value their definition names "
-              "(spec_round under Down/Up/Zero/HalfAway/the type's mode), trunc + fract = x, flags truthful, round_fract's precondition "
-              "holds at every call site; the two primitives round_fract/round_ratio equal spec_round for all six modes through the "
-              "rounding tables regenerated from float/src/round.rs. Every implementation answer is decided against the extracted "
-              "specification.")
+LEVEL_TEXT = ("Coq theorems for all inputs (every base B >= 2, every float, every digits_ub that never under-estimates): the as-is models "
+              "of FBig::{trunc,floor,ceil,round,fract,split_at_point,to_int,with_precision}, Repr::to_int, split_at_point_internal / "
+              "smaller_than_one return the neighbour of the exact value their definition names (spec_round under Zero/Down/Up/HalfAway/"
+              "the type's mode), trunc + fract = x with |fract| < 1 and the sign of x, the Exact/NoOp/AddOne/SubOne flag is the true "
+              "difference to the truncated value, round_fract's debug assertion holds at every call site; the rational "
+              "ceil/floor/trunc/round/fract/split_at_point likewise (and the roundings depend on the value only, not on the reduction); "
+              "round_fract/round_ratio equal spec_round for all six modes through the rounding tables regenerated from "
+              "float/src/round.rs; the base-10 / power-of-two digit splitting of utils.rs equals truncating division by B^k. "
+              "Every implementation answer is decided against the extracted specification.")
 LEVEL_NOTE = ("Trusted: Coq kernel, translator (round_low_part bodies), extraction + FastZ.v, zarith, harness. IBig arithmetic below the "
               "float/rational layer is Z arithmetic (C01/C02/C09); digits_ub enters only through the contract 'never under-estimates' "
-              "(C12 log2_bounds); the f32 pre-filter inside round_fract is not modelled (C03 finding #30 territory, precision*log2(B) > 16000).")
+              "(C12 log2_bounds); the f32 pre-filter inside round_fract is not modelled (C03 finding #30 territory, precision*log2(B) > 16000). "
+              "Result precisions (context of the returned float) are checked for legality by the oracle only, not proved. Two defects of the "
+              "pinned tree were repaired in /repo (findings/C10.json F01 = DESIGN 5.1 #20, F02) and are refuted in Coq on the pinned model.")
 TECHNIQUE = "Coq proof (as-is models = spec_round, rounding tables regenerated from source) + extracted-spec correspondence run"
 RULE = ("cases = FBig op {trunc,floor,ceil,round,fract,split,to_int,repr_to_int,with_precision} x base {2,3,8,10,16,36} x six modes x "
         "precision {0 (unlimited),1,2,3,4,5,7,10,17,40} x significand digits {1,2,p-1,p} x position of the radix point "
